@@ -204,6 +204,14 @@ func execBert(c bertCase) *evid.Failure {
 	if int64(len(gotBody)) > int64(c.Max) {
 		return evid.Failf("bert/block-exceeds-max", c, "first BERT block has %d bytes, maximum message size is %d", len(gotBody), c.Max)
 	}
+	if c.Max < 1152 {
+		// below the size RFC 8323 requires for BERT only the bound itself is asserted: a block is a
+		// whole multiple of 1024 that does not exceed the maximum message size
+		if len(gotBody)%1024 != 0 {
+			return evid.Failf("bert/not-multiple", c, "BERT block has %d bytes, not a multiple of 1024", len(gotBody))
+		}
+		return nil
+	}
 	if wantMore && len(gotBody)%1024 != 0 {
 		return evid.Failf("bert/not-multiple", c, "non-final BERT block has %d bytes, not a multiple of 1024", len(gotBody))
 	}
@@ -338,13 +346,13 @@ func TestCheck(t *testing.T) {
 		// every maximum message size 1152..70000 in the thorough tier, all 1024-boundaries +-1 and a stride in quick
 		var maxes []uint32
 		if r.Thorough() {
-			for m := uint32(1152); m <= 70000; m++ {
+			for m := uint32(0); m <= 70000; m++ {
 				maxes = append(maxes, m)
 			}
 		} else {
 			seen := map[uint32]bool{}
 			add := func(m uint32) {
-				if m >= 1152 && m <= 70000 && !seen[m] {
+				if m <= 70000 && !seen[m] {
 					seen[m] = true
 					maxes = append(maxes, m)
 				}
@@ -359,6 +367,9 @@ func TestCheck(t *testing.T) {
 			}
 			add(1152)
 			add(70000)
+			for _, m := range []uint32{0, 1, 15, 16, 512, 1000, 1023, 1024, 1025, 1100, 1151} {
+				add(m)
+			}
 		}
 		var mu sync.Mutex
 		idx := 0
@@ -379,6 +390,9 @@ func TestCheck(t *testing.T) {
 					unit := int(m) / 1024 * 1024
 					for _, dir := range []string{"up", "down"} {
 						for _, b := range []int{1, 1023, 1024, 1025, unit - 1, unit, unit + 1, unit + 1024, 2*unit + 3} {
+							if b < 1 || (m < 1152 && b <= 1024) {
+								continue
+							}
 							c := bertCase{m, b, dir}
 							if f := evid.SafeExec("bert", execBert, c); f != nil {
 								r.Fail(f)
@@ -400,7 +414,7 @@ func TestCheck(t *testing.T) {
 	}}
 	r.SetExhaustive()
 	r.Main(evid.Meta{
-		Rule: "exhaustive enumeration: every 24-bit option value (every 32-bit decoder input in the thorough tier) through DecodeBlockOption, every (szx 0-7, num < 2^20, more) triple and a grid of out-of-domain arguments through EncodeBlockOption, SZX.Size for 0-255, first BERT block for max message sizes 1152-70000 through BlockWise.Do/Handle; oracle = specification functions written from RFC 7959 2.2; non-trivial = block number >= 2^16 or at a domain edge / out-of-domain argument / BERT body larger than one block; all enumerated cases are distinct by construction",
+		Rule:        "exhaustive enumeration: every 24-bit option value (every 32-bit decoder input in the thorough tier) through DecodeBlockOption, every (szx 0-7, num < 2^20, more) triple and a grid of out-of-domain arguments through EncodeBlockOption, SZX.Size for 0-255, first BERT block for max message sizes 0-70000 (below 1152, where RFC 8323 does not allow BERT, only the bound: a multiple of 1024 not above the maximum) through BlockWise.Do/Handle; oracle = specification functions written from RFC 7959 2.2; non-trivial = block number >= 2^16 or at a domain edge / out-of-domain argument / BERT body larger than one block; all enumerated cases are distinct by construction",
 		Assumptions: []string{"the specification functions in c19_test.go transcribe RFC 7959 section 2.2 correctly", "BERT sizing is observed through BlockWise.Do (upload) and BlockWise.Handle of a GET (download), first block only"},
 		Floor:       1000,
 	}, decode, encode, size, bert)
